@@ -7,6 +7,7 @@ require (
 	github.com/els0r/goProbe/plugins/contrib/v4 v4.0.0-20250311082229-45a8753b72a7
 	github.com/els0r/goProbe/v4 v4.0.0
 	github.com/fako1024/gotools/concurrency v0.0.0-20260108133916-d42cb4e89f05
+	github.com/json-iterator/go v1.1.12
 )
 
 require (
@@ -30,7 +31,6 @@ require (
 	github.com/goccy/go-yaml v1.19.2 // indirect
 	github.com/google/uuid v1.6.0 // indirect
 	github.com/grpc-ecosystem/grpc-gateway/v2 v2.29.0 // indirect
-	github.com/json-iterator/go v1.1.12 // indirect
 	github.com/klauspost/compress v1.18.6 // indirect
 	github.com/klauspost/cpuid/v2 v2.3.0 // indirect
 	github.com/leodido/go-urn v1.4.0 // indirect
